@@ -4,8 +4,8 @@
 # compiles, that the touched packages' existing tests pass, and that the demo fails with it and passes without it.
 set -u
 P=$1; N=${2:-1}
-SRC=/tmp/seed-$P
-DST=/verif/seeded/$P-$N
+SRC=${SEED_SRC:-/tmp/seed-$P}
+DST=$(cd "$(dirname "$0")/.." && pwd)/seeded/$P-$N
 export GOFLAGS=-mod=mod GOPROXY=off GOSUMDB=off GOTOOLCHAIN=local
 mkdir -p "$DST"
 git -C "$SRC" diff > "$DST/patch.diff"
@@ -14,7 +14,7 @@ cp "$SRC/SEEDED.md" "$DST/SEEDED.md" 2>/dev/null
 DEMOS=$(git -C "$SRC" ls-files --others --exclude-standard | grep '_test\.go$')
 mkdir -p "$DST/demo"
 for d in $DEMOS; do mkdir -p "$DST/demo/$(dirname $d)"; cp "$SRC/$d" "$DST/demo/$d"; done
-WT=/tmp/conf-$P
+WT=/tmp/conf-$P-$N
 git -C /repo worktree remove --force "$WT" >/dev/null 2>&1
 git -C /repo worktree add -q --detach "$WT" HEAD || exit 3
 RES="$DST/confirm.log"; : > "$RES"
@@ -22,7 +22,7 @@ cd "$WT"
 git apply "$DST/patch.diff" || { echo "$P: patch does not apply to /repo HEAD" | tee -a "$RES"; cd /; git -C /repo worktree remove --force "$WT"; exit 4; }
 go build ./... >> "$RES" 2>&1; BUILD=$?
 PKGS=$(git diff --name-only | grep '\.go$' | xargs -n1 dirname | sort -u | sed 's#^#./#')
-MODS=$(git diff --name-only | grep '^x/' | cut -d/ -f1-2 | sort -u | sed 's#^#./#; s#$#/...#')
+MODS=$(git diff --name-only | grep -E '^(x/[^/]+|app)/' | sed -E 's#^(x/[^/]+|app)/.*#\1#' | sort -u | sed 's#^#./#; s#$#/...#')
 go test -vet=off -count=1 $MODS >> "$RES" 2>&1; EXIST=$?
 for d in $DEMOS; do mkdir -p "$(dirname $d)"; cp "$DST/demo/$d" "$d"; done
 DPK=$(for d in $DEMOS; do echo "./$(dirname $d)"; done | sort -u)
